@@ -22,7 +22,8 @@ META = {
              "(scenario, event digest); non-trivial = >=2 chunks on each side and >=2 jobs open at once"),
     "abstract_measure": "distinct (scenario, collection kind) pairs",
     "gates": {"quick": {"bind": 1500, "wait_on": 800, "checkpoint": 800, "clone": 800, "multi_open": 2500,
-                        "order_could_differ": 1000, "blockwise_literal_or_repeated_operand": 200},
+                        "order_could_differ": 1000, "blockwise_literal_or_repeated_operand": 200,
+                        "prior_call_with_omit": 300},
               "thorough": {"bind": 1500}},
     "anchors": ["dask/graph_manipulation.py", "dask/highlevelgraph.py", "dask/blockwise.py"],
     "real": ["dask.graph_manipulation.bind/wait_on/checkpoint/clone", "dask.array / dask.bag / dask.delayed graph "
@@ -129,8 +130,10 @@ def run_one(tape, cfg):
         assume_layers = not tape.chance(1, 3, "assume")
         optimize = not tape.chance(1, 3, "noopt")
         variant = tape.draw(3, "variant") if kind == "array" else 0
+        prior = tape.chance(1, 3, "prior_omit_call")
     wl = {"scenario": scen, "kind": kind, "n1": n1, "n2": n2, "split_every": split_every, "seed": seed,
-          "assume_layers": assume_layers, "optimize_graph": optimize, "variant": variant}
+          "assume_layers": assume_layers, "optimize_graph": optimize, "variant": variant,
+          "prior_omit_call": prior}
     if variant and scen in ("bind_dep_omit", "bind_shared_omit", "clone"):
         out.probe("blockwise_literal_or_repeated_operand")
     out.decoded = wl
@@ -171,8 +174,13 @@ def run_one(tape, cfg):
         if scen.startswith("bind"):
             if scen == "bind_indep":
                 P = apply(kind, base(kind, n1, 0), "P")
-                C = apply(kind, apply(kind, base(kind, n2, 50), "CB"), "C")
+                CBc = apply(kind, base(kind, n2, 50), "CB")
+                C = apply(kind, CBc, "C")
                 want = eager(kind, C)
+                if prior and kind != "dataframe":
+                    # call history: the same collection object was cloned with an omit before
+                    out.probe("prior_call_with_omit")
+                    clone(C, omit=CBc, **bkw)
                 C2 = bind(C, P, split_every=split_every, **bkw)
                 ctags, ptags, free = ("C", "CB"), ("P",), ()
             elif scen == "bind_dep_omit":
@@ -254,6 +262,9 @@ def run_one(tape, cfg):
             O = apply(kind, base(kind, n1, 0), "O")
             X = apply(kind, O, "X", variant=variant)
             use_omit = tape.chance(1, 2, "omit")
+            if prior and kind != "dataframe":
+                out.probe("prior_call_with_omit")
+                clone(X, omit=O, **bkw)
             Xc = clone(X, omit=O if use_omit else None, **bkw)
             want = eager(kind, X)
             taskfns.reset()
